@@ -678,6 +678,36 @@ func (it *Interp) inBatchCallback(b *Backend, e ecs.Entity) int {
 		}
 		it.count("dump-inside-batch-callback")
 	}
+	if op := it.cur; op.F >= 0 && op.F < len(b.flt) && op.F < len(it.M.Filters) && b.flt[op.F] != nil && len(op.QRels) > 0 && it.nestedDone[b.Name+"/rebatch"] != it.Step {
+		// a Batch value is not a snapshot of its filter: the filter object of the running batch operation is used for
+		// another Batch with other targets from inside the callback (no structural change, so it is legal on a locked
+		// world); the running operation must go on with the entities it selected
+		it.nestedDone[b.Name+"/rebatch"] = it.Step
+		if f := it.M.Filters[op.F]; f.Inst >= 0 && !f.Stale {
+			t := -1
+			for s := len(b.H) - 1; s >= 0 && t < 0; s-- {
+				if h := b.H[s]; !h.IsZero() && b.W.Alive(h) {
+					t = s
+					for _, r := range op.QRels {
+						if r.T == s {
+							t = -1
+						}
+					}
+				}
+			}
+			if t >= 0 {
+				rs := make([]RelSpec, len(op.QRels))
+				copy(rs, op.QRels)
+				for i := range rs {
+					rs[i].T = t
+				}
+				if p := try(func() { _ = b.flt[op.F].Batch(b.rels(f.List(), rs)) }); p != nil {
+					fail("panic|"+op.K+"|batch-inside-callback", "%s step %d %v: building another Batch from the filter of the running operation inside its callback panicked: %v", b.Name, it.Step, op, p)
+				}
+				it.count("filter-of-the-running-batch-used-again-inside-its-callback")
+			}
+		}
+	}
 	b.tr("callback %v", e)
 	return s
 }
